@@ -7,6 +7,7 @@ package vh
 import (
 	"encoding/json"
 	"fmt"
+	"io"
 	"math"
 	"math/rand"
 	"os"
@@ -262,9 +263,13 @@ func TestDrv_C17(t *testing.T) {
 						addErr = fmt.Errorf("panic: %v", p)
 					}
 				}()
-				for _, i := range ord {
+				for k, i := range ord {
 					if addErr = pl.Add(&all[i]); addErr != nil {
 						return
+					}
+					// a snapshot rendered while results are still arriving must not change what the final plot shows
+					if oi%3 == 2 && (k == len(ord)/3 || k == len(ord)/2) {
+						_, _ = pl.WriteTo(io.Discard)
 					}
 				}
 				pl.Close()
